@@ -37,9 +37,11 @@ PROPS = {
         "undecided": ["nothing beyond binascii.crc_hqx itself; payload lengths are covered by per-byte induction"],
     },
     "C04": {
-        "exhaustive": True,  # every rule of C04 enumerates its finite domain completely (8x8x2 cases, 6 classes x 2 states, 256 codes)
-        "level": _L.format(what="complete per-frame transfer function of the receiver (8x8x2 cases), dispatch table "
-                                "for the six frame classes, RSTACK restart, confined writers of the expected number"),
+        "level": _L.format(what="complete per-frame transfer function of the receiver (8x8x2 cases, also with the upper "
+                                "layer raising during delivery), dispatch table for the six frame classes, RSTACK "
+                                "restart, confined writers of the expected number, and the decoding a well-formed "
+                                "frame goes through first (unstuffing transducer, control-byte classification, CRC gate, "
+                                "scanner iteration)"),
         "undecided": ["nothing beyond the trusted base (sequences follow by induction on the per-frame function)"],
     },
     "C05": {
